@@ -31,7 +31,11 @@ LEVEL_TEXT = ('static analysis: (D1) match_ref_to_sample interpreted on literal 
               'filtered-in-place or both renumbered), so the label-aligned subtraction pairs each bin with its own reference bin; '
               'GenomicArray.sort itself orders literal shuffled tables by (natural chromosome order, start, end), ties in input order, renumbered'
               ' (C08 rule). (D9) edge_losses / edge_gains are the documented rational functions of target size, gap and insert size in every '
-              'order case (exact identities over symbols). Does not decide rolling-median values, depth-scale invariance or weight monotonicity.')
+              'order case (exact identities over symbols). (CLI) the `fix` command line(s), through a model of argparse built from the '
+              'declarations in commands.py and the real _cmd_ body interpreted with readers, library step and writers stubbed: target / '
+              'antitarget / reference files in their roles, each --no-gc / --no-edge / --no-rmask switch alone, cluster, sample id, PAR genome '
+              'and smoothing fraction reach do_fix as given. Does not decide rolling-median values, depth-scale invariance or weight '
+              'monotonicity.')
 TECHNIQUE = "dominance (must-pass-through); abstract interpretation over order positions and over index-provenance tags; structural dataflow of the windowed correction; role-flow"
 
 FIX = "cnvlib.fix"
@@ -447,6 +451,101 @@ def d9(chk, prog):
     chk.decide(ok, "edge-formula", "edge bias = gains - losses per bin, on the bins' own index", f"{fe.qn}::combine", fe.loc(), f"get_edge_bias returns {rets}")
 
 
+def d10(chk, prog):
+    chk.clause("D10", "every enabled correction runs on the bins that passed the reference filters, over the window those bins define; the edge covariate is laid out in row order")
+    fi = prog.fn(f"{FIX}.load_adjust_coverages")
+    tb = Table(chk, "deterministic-correction", "load_adjust_coverages on 16 well-covered bins with 0 / 7 / 12 bad reference bins: corrections run, on the kept bins, window fraction max(0.01, kept^-1/2) or the caller's", fi.loc(),
+               fi.qn + "::gate and window")
+    n = 16
+    for n_bad, frac in itertools.product((0, 7, 12), (None, Fr(1, 5))):
+        W.reset()
+        model = Model()
+        bad = [i % 2 == 1 and sum(1 for j in range(i) if j % 2 == 1) < n_bad for i in range(n)] if n_bad <= 8 else [i >= n - n_bad for i in range(n)]
+        kept = bad.count(False)
+
+        def mk(kind):
+            rows = []
+            for i in range(n):
+                r = dict(chromosome="chr1", start=100 * i, end=100 * i + 50, gene="G", log2=Fr(i % 3, 4))
+                if kind == "R":
+                    r.update(spread=Fr(1, 10), gc=Fr(4, 10), rmask=Fr(1, 10))
+                else:
+                    r["depth"] = Fr(5)
+                rows.append(r)
+            return make_ga("CopyNumArray", rows, {"sample_id": kind}, index="range", exact=True, labels=list(range(n)))
+        samp, ref = mk("S"), mk("R")
+        model.prims[f"{FIX}.match_ref_to_sample"] = lambda it, r, s_: mk("R")
+        mask = Vec(list(bad), aligned="range")
+        mask.exact = True
+        model.prims[f"{FIX}.mask_bad_bins"] = lambda it, a, mask=mask: mask
+        calls = []
+
+        def cbw(it, cnarr, fraction, key, calls=calls):
+            calls.append((cnarr.data.n, fraction, len(key.v) if isinstance(key, Vec) else None))
+            d = cnarr.data.copy()
+            d.index = "range"
+            return GA(cnarr.cls, d, d.n, dict(cnarr.meta))
+        model.prims[f"{FIX}.center_by_window"] = cbw
+        model.prims[f"{FIX}.get_edge_bias"] = lambda it, a, m: Vec([0] * a.data.n)
+        model.method_prims["center_all"] = lambda it, obj, *a, **k: None
+        it = Interp(prog, model)
+        out = tb.guard(lambda: it.run(fi.qn, [samp, ref, True, True, True, True, None, frac]), f"bad={n_bad} fraction={frac}")
+        if out is None:
+            continue
+        want_frac = frac if frac is not None else {16: Fr(1, 4), 9: Fr(1, 3), 4: Fr(1, 2)}[kept]
+        ok = len(calls) == 3 and all(c[0] == kept and c[2] == kept for c in calls)
+        for c in calls:
+            f_ = c[1]
+            try:
+                num_ = float(T(f_).cval()) if T(f_).is_const() else None
+            except Exception:
+                num_ = None
+            if isinstance(f_, float):
+                num_ = f_
+            ok = ok and num_ is not None and abs(num_ - float(want_frac)) < 1e-9
+        tb.cell(ok, dict(bad_reference_bins=n_bad, kept=kept, given_fraction=str(frac), center_by_window_calls=[(c[0], repr(c[1]), c[2]) for c in calls], want=dict(calls=3, rows=kept, fraction=str(want_frac))))
+    tb.done("an enabled correction is skipped, or smoothed over a window sized by bins that were filtered out, when the reference has bad bins (the gate and the default window must count the kept bins)")
+    # the edge covariate: per chromosome in row order
+    fe = prog.fn(f"{FIX}.get_edge_bias")
+    tb2 = Table(chk, "deterministic-correction", "get_edge_bias on literal two-chromosome tables (chr2 before chr10; different tile layouts): one value per bin, each from its own chromosome's tiles", fe.loc(), fe.qn + "::layout")
+    ins = 100
+
+    def losses(t):
+        return Fr(ins, 2 * t) - (Fr((ins - t) ** 2, 2 * ins * t) if t < ins else 0)
+
+    def gain(t, g):
+        g = max(0, g)
+        return Fr((ins - g) ** 2, 4 * ins * t) - (Fr((ins - t - g) ** 2, 4 * ins * t) if t + g < ins else 0)
+
+    def oracle(tiles):
+        out = []
+        for i, (s_, e_) in enumerate(tiles):
+            t = e_ - s_
+            v = -losses(t)
+            if i > 0 and s_ - tiles[i - 1][1] < ins:
+                v += gain(t, s_ - tiles[i - 1][1])
+            if i + 1 < len(tiles) and tiles[i + 1][0] - e_ < ins:
+                v += gain(t, tiles[i + 1][0] - e_)
+            out.append(v)
+        return out
+    layouts = {"chr2 small abutting tiles, chr10 wide isolated ones": [("chr2", [(0, 40), (40, 90), (120, 150)]), ("chr10", [(0, 500), (1000, 1500)])],
+               "chr1, chr10, chr2 in natural order": [("chr1", [(0, 60), (70, 400)]), ("chr2", [(0, 30), (30, 60), (500, 640)]), ("chr10", [(10, 210)])]}
+    for label, lay in layouts.items():
+        for labels_kind in ("range", "other"):
+            W.reset()
+            rows = [dict(chromosome=c, start=s_, end=e_, gene="G", log2=0) for c, tiles in lay for s_, e_ in tiles]
+            g = make_ga("CopyNumArray", rows, {}, index="range" if labels_kind == "range" else "any", exact=True, labels=list(range(len(rows))) if labels_kind == "range" else [7 * i + 3 for i in range(len(rows))][::-1])
+            it = Interp(prog)
+            out = tb2.guard(lambda: it.run(fe.qn, [g, ins]), f"{label}; labels {labels_kind}")
+            if out is None:
+                continue
+            want = [v for c, tiles in lay for v in oracle(tiles)]
+            got = list(out.v) if isinstance(out, Vec) else None
+            ok = got is not None and len(got) == len(want) and all(same(T(a), T(b)) for a, b in zip(got, want))
+            tb2.cell(ok, dict(layout=label, labels=labels_kind, got=[str(x) for x in got] if got else repr(out), want=[str(x) for x in want]))
+    tb2.done("the edge covariate of a bin is computed from another chromosome's tiles (per-chromosome results concatenated in an order other than the rows'), or is not the stated loss / gain formula")
+
+
 def run(chk):
     prog = chk.prog
     chk.trust("Python grammar via ast", "pandas: reindex() yields NaN rows for missing labels; Series arithmetic and column stores align on index; "
@@ -463,6 +562,7 @@ def run(chk):
     from . import C08
     C08.d2_sort_table(chk, prog)   # the sort both tables go through: (chromosome, start, end), ties in input order
     d9(chk, prog)
+    d10(chk, prog)
     chk.clause("CLI", "the `fix` command line: the three files in their roles and each --no-* switch reach do_fix as given")
     from .. import cliglue
     cliglue.check_fix(chk, prog)
@@ -470,6 +570,8 @@ def run(chk):
 
 _F = "cnvlib/fix.py"
 MUTANTS = [
+    dict(name="cli: fix swaps the gc and edge switches", file="cnvlib/commands.py", old="        args.do_gc,\n        args.do_edge,\n        args.do_rmask,\n        args.cluster,\n        args.smoothing_window_fraction,", new="        args.do_edge,\n        args.do_gc,\n        args.do_rmask,\n        args.cluster,\n        args.smoothing_window_fraction,"),
+    dict(name="cli: --no-rmask stores into do_edge", file="cnvlib/commands.py", old='    "--no-rmask",\n    dest="do_rmask",', new='    "--no-rmask",\n    dest="do_edge",'),
     dict(name="missing-bin raise turned into a warning", file=_F, old="        raise ValueError(\n            f\"Reference is missing {num_missing} bins found in {samp_cnarr.sample_id}\"\n        )", new="        logging.warning(\n            f\"Reference is missing {num_missing} bins found in {samp_cnarr.sample_id}\"\n        )"),
     dict(name="reference keyed by (chromosome, start) only", file=_F, old="    ref_labeled = ref_cnarr.data.set_index(pd.Index(ref_cnarr.coords()))", new="    ref_labeled = ref_cnarr.data.set_index(pd.Index([r[:2] for r in ref_cnarr.coords()]))"),
     dict(name="matched reference keeps its own labels", file=_F, old="        ref_matched.reset_index(drop=True).set_index(samp_cnarr.data.index)\n", new="        ref_matched.reset_index(drop=True)\n"),
